@@ -11,7 +11,9 @@ import (
 	"github.com/NVIDIA/KAI-scheduler/pkg/scheduler/api/pod_status"
 	"github.com/NVIDIA/KAI-scheduler/pkg/scheduler/api/podgroup_info"
 	"github.com/NVIDIA/KAI-scheduler/pkg/scheduler/api/eviction_info"
+	"github.com/NVIDIA/KAI-scheduler/pkg/scheduler/cache"
 	"github.com/NVIDIA/KAI-scheduler/pkg/scheduler/framework"
+	v1 "k8s.io/api/core/v1"
 	"github.com/NVIDIA/KAI-scheduler/pkg/scheduler/plugins/proportion/capacity_policy"
 
 	u "kaiverif/internal/util"
@@ -141,10 +143,51 @@ func genDirect(r *u.Rng, malformed bool) directCase {
 // ---- session stream: real gates + real handlers over a sequence -----------------
 
 type seqStep struct {
-	Op   string `json:"op"` // probe | admit | release
+	Op   string `json:"op"` // probe | admit | release | commit
 	Job  *jspec `json:"job,omitempty"`
 	Task string `json:"task,omitempty"` // release: name of a charged task
+	// commit: Statement.Commit of the statement holding the allocations of job Of (skipped unless that
+	// job was admitted by the step before); Cache.Bind fails for its Fail-th task (1-based; 0: no failure).
+	Of   string `json:"of,omitempty"`
+	Fail int    `json:"failBindOfTask,omitempty"`
 }
+
+func (s seqStep) label() string {
+	switch {
+	case s.Job != nil:
+		return s.Op + " " + s.Job.label()
+	case s.Op == "commit" && s.Fail <= 0:
+		return "commit " + s.Of + " binds-ok"
+	case s.Op == "commit":
+		return fmt.Sprintf("commit %s bind-fails=%s-t%d", s.Of, s.Of, s.Fail-1)
+	}
+	return s.Op + " " + s.Task
+}
+
+// bindCache is the session's cache for Statement.Commit: Bind fails for the one
+// task named failFor (same idea as the recorder of harness/internal/cycle); the
+// embedded interface is nil, nothing else of the cache is reached by Commit.
+type bindCache struct {
+	cache.Cache
+	failFor string
+	bound   []string
+	failed  []string
+}
+
+func (c *bindCache) Bind(p *pod_info.PodInfo, hostname string, _ map[string]string) error {
+	if p.Name == c.failFor {
+		c.failed = append(c.failed, p.Name)
+		return fmt.Errorf("injected bind failure for %s", p.Name)
+	}
+	c.bound = append(c.bound, p.Name)
+	return nil
+}
+
+func (c *bindCache) Evict(*v1.Pod, *podgroup_info.PodGroupInfo, eviction_info.EvictionMetadata, string) error {
+	return nil
+}
+
+func (c *bindCache) TaskPipelined(*pod_info.PodInfo, string) {}
 
 type seqCase struct {
 	Queues []qspec   `json:"queues"`
@@ -152,7 +195,11 @@ type seqCase struct {
 	Steps  []seqStep `json:"steps"`
 }
 
-func obsQueues(ssn *framework.Session, c seqCase, qid *ids) string {
+// obsQueues observes, after a step, the plugin's counters (through
+// Session.QueueAllocatedResources) and, independently of the plugin, the tasks
+// that really hold resources: every pod in the pod map of every job of the
+// session whose status is Allocated, Pipelined, Binding, Bound or Running.
+func obsQueues(ssn *framework.Session, c seqCase, qid, tid *ids) string {
 	var out []string
 	for _, q := range c.Queues {
 		qi := ssn.ClusterInfo.Queues[common_info.QueueID(q.Name)]
@@ -160,7 +207,20 @@ func obsQueues(ssn *framework.Session, c seqCase, qid *ids) string {
 		out = append(out, fmt.Sprintf("{| oq_id := %s; oq_alloc := %s |}", u.Pos(qid.of(q.Name)),
 			rqTerm([3]float64{rr.Cpu(), rr.Memory(), rr.GPUs()})))
 	}
-	return u.Opt(true, u.List(out))
+	var hold []int
+	for _, job := range ssn.ClusterInfo.PodGroupInfos {
+		for _, p := range job.GetAllPodsMap() {
+			if pod_status.IsActiveAllocatedStatus(p.Status) {
+				hold = append(hold, tid.of(p.Name))
+			}
+		}
+	}
+	sort.Ints(hold)
+	hs := make([]string, len(hold))
+	for i, h := range hold {
+		hs[i] = u.Pos(h)
+	}
+	return u.Opt(true, fmt.Sprintf("{| ob_queues := %s; ob_holders := %s |}", u.List(out), u.List(hs)))
 }
 
 func le3(a, b [3]float64) bool { return a[0] <= b[0] && a[1] <= b[1] && a[2] <= b[2] }
@@ -175,9 +235,12 @@ func runSeq(c seqCase) (term, label string, trace []stepObs, counts map[string]i
 	tid := newIds()
 	jobs := map[common_info.PodGroupID]*podgroup_info.PodGroupInfo{}
 	type jrec struct {
-		spec  jspec
-		job   *podgroup_info.PodGroupInfo
-		tasks []*pod_info.PodInfo
+		spec      jspec
+		job       *podgroup_info.PodGroupInfo
+		tasks     []*pod_info.PodInfo
+		stmt      *framework.Statement // the statement that holds this job's allocations (one per job, as in the actions)
+		admitted  bool
+		committed bool
 	}
 	build := func(j jspec, running bool) *jrec {
 		rec := &jrec{spec: j}
@@ -211,36 +274,97 @@ func runSeq(c seqCase) (term, label string, trace []stepObs, counts map[string]i
 		}
 	}
 	ssn := w.session(c.Queues, jobs)
-	stmt := ssn.Statement()
+	bc := &bindCache{}
+	ssn.Cache = bc
+	stmt := ssn.Statement() // holds the evictions
 
-	charged := map[string]*pod_info.PodInfo{} // task name -> charged task
+	// task name -> job record of a charged task. The task object itself is looked up in the job's pod
+	// map when needed: Commit puts the operation's clone of the task there.
+	charged := map[string]*jrec{}
+	current := func(rec *jrec, name string) *pod_info.PodInfo {
+		return rec.job.GetAllPodsMap()[common_info.PodID(name)]
+	}
+	lastAdmitted := ""
+	bindFailed := false
 	var initTerms []string
 	for _, rec := range inits {
 		for i, ti := range rec.tasks {
 			ch := chargeOf(ti)
-			charged[rec.spec.Tasks[i].Name] = ti
+			charged[rec.spec.Tasks[i].Name] = rec
 			initTerms = append(initTerms, u.Tuple(u.Pos(qid.of(rec.spec.Queue)), u.Bool(rec.spec.Preemptible),
 				otaskTerm(tid.of(rec.spec.Tasks[i].Name), ti, rec.spec.Tasks[i].NodeMem, "None", &ch)))
 		}
 	}
-	initObs := obsQueues(ssn, c, qid)
+	initObs := obsQueues(ssn, c, qid, tid)
 
 	var stepTerms []string
 	var uncovered []string
 	for _, s := range c.Steps {
 		switch s.Op {
 		case "release":
-			ti := charged[s.Task]
-			if ti == nil {
+			rec := charged[s.Task]
+			if rec == nil {
 				continue
 			}
+			// the real pod decides: a task that no longer holds resources (whatever the harness
+			// believes) cannot be evicted; the observations after the earlier steps show the difference
+			ti := current(rec, s.Task)
+			if ti == nil || !pod_status.IsActiveAllocatedStatus(ti.Status) {
+				counts["release-skipped:pod-holds-nothing"]++
+				delete(charged, s.Task)
+				continue
+			}
+			lastAdmitted = ""
 			if err := stmt.Evict(ti, "c08", eviction_info.EvictionMetadata{}); err != nil {
-				panic(err)
+				counts["release-error"]++ // still observed below: the model expects a clean release
 			}
 			delete(charged, s.Task)
-			stepTerms = append(stepTerms, u.Pair(u.App("ORelease", u.Pos(tid.of(s.Task))), obsQueues(ssn, c, qid)))
+			stepTerms = append(stepTerms, u.Pair(u.App("ORelease", u.Pos(tid.of(s.Task))), obsQueues(ssn, c, qid, tid)))
 			trace = append(trace, stepObs{Kind: "release", Task: s.Task})
 			counts["step:release"]++
+		case "commit":
+			rec := recs[s.Of]
+			if rec == nil || !rec.admitted || rec.committed || lastAdmitted != s.Of {
+				continue
+			}
+			lastAdmitted = ""
+			rec.committed = true
+			bc.failFor, bc.failed = "", nil
+			pos := "none"
+			if s.Fail > 0 {
+				ix := s.Fail - 1
+				if ix >= len(rec.tasks) {
+					ix = len(rec.tasks) - 1
+				}
+				bc.failFor = rec.spec.Tasks[ix].Name
+				switch {
+				case len(rec.tasks) == 1:
+					pos = "only-task"
+				case ix == 0:
+					pos = "first"
+				case ix == len(rec.tasks)-1:
+					pos = "last"
+				default:
+					pos = "middle"
+				}
+			}
+			err := rec.stmt.Commit()
+			if (err != nil) != (s.Fail > 0) || (s.Fail > 0) != (len(bc.failed) == 1) {
+				// not what Commit does today (it returns the bind error, after exactly one failed Bind call);
+				// the observations below are what counts
+				counts["commit-unexpected-result"]++
+			}
+			step := "OCommitOk"
+			if s.Fail > 0 {
+				step = u.App("OBindFail", u.Pos(tid.of(bc.failFor)))
+				delete(charged, bc.failFor)
+				bindFailed = true
+			}
+			stepTerms = append(stepTerms, u.Pair(step, obsQueues(ssn, c, qid, tid)))
+			trace = append(trace, stepObs{Kind: "commit", Job: s.Of, Task: bc.failFor})
+			counts["step:commit"]++
+			counts["commit-bind-failure:"+pos]++
+			bc.failFor = ""
 		case "probe":
 			rec := recs[s.Job.Name]
 			vjob, k1 := verdictTerm(ssn.IsJobOverQueueCapacityFn(rec.job, rec.tasks), qid)
@@ -268,8 +392,11 @@ func runSeq(c seqCase) (term, label string, trace []stepObs, counts map[string]i
 				gates[i] = "None"
 			}
 			admitted := "AdmNo"
+			lastAdmitted = ""
+			rec.stmt = ssn.Statement()
 			if res.IsSchedulable {
 				admitted = "AdmYes"
+				stmt := rec.stmt
 				cp := stmt.Checkpoint()
 				for i, t := range rec.tasks {
 					node := w.node(rec.spec.Tasks[i].NodeMem)
@@ -301,8 +428,13 @@ func runSeq(c seqCase) (term, label string, trace []stepObs, counts map[string]i
 				}
 			} else {
 				allJob, allNode := true, true
+				rec.admitted = true
+				lastAdmitted = rec.spec.Name
+				if bindFailed {
+					counts["admitted-after-bind-failure"]++
+				}
 				for i, t := range rec.tasks {
-					charged[rec.spec.Tasks[i].Name] = t
+					charged[rec.spec.Tasks[i].Name] = rec
 					jr := [3]float64{t.ResReq.Cpu(), t.ResReq.Memory(), t.ResReq.GetGpusQuota()}
 					nq := w.node(rec.spec.Tasks[i].NodeMem).GetRequiredInitQuota(t)
 					nr := [3]float64{nq.MilliCPU, nq.Memory, nq.GPU}
@@ -323,7 +455,7 @@ func runSeq(c seqCase) (term, label string, trace []stepObs, counts map[string]i
 			o.Admitted = admitted
 			obs := "None"
 			if admitted != "AdmPanic" {
-				obs = obsQueues(ssn, c, qid)
+				obs = obsQueues(ssn, c, qid, tid)
 			}
 			stepTerms = append(stepTerms, u.Pair(u.App("OAdmit", u.Pos(qid.of(rec.spec.Queue)), u.Bool(rec.spec.Preemptible),
 				u.List(ots), vjob, admitted), obs))
@@ -352,11 +484,7 @@ done:
 		sl = append(sl, "running "+j.label())
 	}
 	for _, s := range c.Steps {
-		if s.Job != nil {
-			sl = append(sl, s.Op+" "+s.Job.label())
-		} else {
-			sl = append(sl, s.Op+" "+s.Task)
-		}
+		sl = append(sl, s.label())
 	}
 	tag := "uncovered-admitted=none"
 	if len(uncovered) > 0 {
@@ -400,10 +528,18 @@ func genSeq(r *u.Rng, allowUncovered bool, malformed bool) seqCase {
 		}
 		return r.Intn(2)
 	}
+	// two thirds of the sequences commit some of their admitted jobs through Statement.Commit, most of
+	// them with a Cache.Bind that fails for the first, a middle or the last task of the job; their
+	// jobs more often have 2-3 tasks, so that tasks are left on both sides of the failing one
+	commits := r.Chance(2, 3)
 	jn := 0
 	newJob := func() jspec {
 		jn++
-		return genJob(r, fmt.Sprintf("j%d", jn), pickQueue(), class())
+		min := 1
+		if commits && r.Chance(1, 2) {
+			min = r.Range(2, 3)
+		}
+		return genJobMin(r, fmt.Sprintf("j%d", jn), pickQueue(), class(), min)
 	}
 	var live []string
 	for i, n := 0, r.Intn(3); i < n; i++ {
@@ -421,6 +557,13 @@ func genSeq(r *u.Rng, allowUncovered bool, malformed bool) seqCase {
 			c.Steps = append(c.Steps, seqStep{Op: "admit", Job: &j})
 			for _, t := range j.Tasks { // released only if it turns out to be charged
 				live = append(live, t.Name)
+			}
+			if commits && r.Chance(2, 3) {
+				fail := 0
+				if !r.Chance(1, 4) {
+					fail = []int{1, len(j.Tasks)/2 + 1, len(j.Tasks)}[r.Intn(3)]
+				}
+				c.Steps = append(c.Steps, seqStep{Op: "commit", Of: j.Name, Fail: fail})
 			}
 		case k < 8 && len(live) > 0:
 			ix := r.Intn(len(live))
@@ -479,6 +622,36 @@ func seqCorpus() []seqCase {
 	// single-device gpu-memory request: only the node-level gate sees it
 	out = append(out, seqCase{Queues: leafChain([3]float64{-1, -1, 0.5}, [3]float64{-1, -1, -1}), Steps: []seqStep{
 		adm(one("a", tspec{Kind: kGpuMem, GpuMem: 50}, true)), adm(one("b", tspec{Kind: kGpuMem, GpuMem: 25}, true))}})
+	// Statement.Commit with a failing Cache.Bind, limit 2 on an ancestor: job a = 2 x 1 GPU fills it;
+	// the bind of one task fails; exactly one more GPU fits afterwards (b), not two (c). First, last task.
+	multi := func(name string, pre bool, ts ...tspec) jspec {
+		j := jspec{Name: name, Queue: "leaf", Preemptible: pre}
+		for i, t := range ts {
+			t.Name = fmt.Sprintf("%s-t%d", name, i)
+			if t.NodeMem == 0 {
+				t.NodeMem = 100
+			}
+			j.Tasks = append(j.Tasks, t)
+		}
+		return j
+	}
+	g1 := tspec{Kind: kWhole, N: 1}
+	for _, fail := range []int{1, 2} {
+		out = append(out, seqCase{Queues: leafChain([3]float64{2, -1, -1}, [3]float64{-1, -1, -1}), Steps: []seqStep{
+			adm(multi("a", true, g1, g1)), {Op: "commit", Of: "a", Fail: fail},
+			adm(one("b", g1, true)), {Op: "commit", Of: "b"}, adm(one("c", g1, true))}})
+	}
+	// three tasks, the middle bind fails: the third stays Allocated (never bound) and charged; releasing
+	// it makes room for a second GPU. Non-preemptible: deserved quota 3 at the leaf.
+	out = append(out, seqCase{Queues: leafChain([3]float64{-1, -1, -1}, [3]float64{-1, -1, 3}), Steps: []seqStep{
+		adm(multi("a", false, g1, g1, g1)), {Op: "commit", Of: "a", Fail: 2},
+		adm(multi("b", false, g1, g1)), adm(one("c", g1, false)), {Op: "release", Task: "a-t2"},
+		adm(one("d", g1, false)), {Op: "commit", Of: "d", Fail: 1}, adm(one("e", g1, false))}})
+	// plain commit changes nothing: the queue stays full
+	out = append(out, seqCase{Queues: leafChain([3]float64{-1, 1, -1}, [3]float64{-1, -1, -1}), Steps: []seqStep{
+		adm(multi("a", true, tspec{Kind: kFraction, Portion: "0.5"}, tspec{Kind: kFraction, Portion: "0.5"})),
+		{Op: "commit", Of: "a"}, adm(one("b", tspec{Kind: kFraction, Portion: "0.25"}, true)),
+		{Op: "release", Task: "a-t0"}, adm(one("c", tspec{Kind: kFraction, Portion: "0.5"}, true))}})
 	return out
 }
 
@@ -541,6 +714,15 @@ func Run(dir string, seed uint64, n int, tier string) error {
 		if counts["admit:AdmYes"] > 0 && counts["admit:AdmNo"] > 0 {
 			out.NonTrivial(label)
 		}
+		if counts["step:commit"] > 0 {
+			out.Count("sequences-with-commit")
+		}
+		if counts["step:commit"]-counts["commit-bind-failure:none"] > 0 {
+			out.Count("sequences-with-bind-failure")
+		}
+		if counts["admitted-after-bind-failure"] > 0 {
+			out.Count("sequences-admitting-after-bind-failure")
+		}
 		out.Sample(map[string]any{"input": c, "observed": trace})
 	}
 	emitDirect := func(c directCase, origin string) {
@@ -579,6 +761,6 @@ func Run(dir string, seed uint64, n int, tier string) error {
 			emitSeq(genSeq(r, false, i%50 == 9), "seq")
 		}
 	}
-	out.Stats["rule"] = "queue forests of depth 1-3 (<= 7 queues; limits and deserved quotas from {-1, 0, k/4 GPUs, k*500 mCPU, k*500 MB}); jobs of 1-3 tasks (whole, fractional x devices, gpu-memory x devices, MIG, DRA, CPU-only; dyadic quantities so that float64 arithmetic is exact); 50% direct cases (capacity_policy.New on hand-set Allocated/AllocatedNotPreemptible near the caps, 1/5 of them malformed: unknown job queue, dangling parent, caps below -1, queue named \"\"), 50% sequences of 4-9 probe/admit/release decisions through a real session (proportion plugin's gates and handlers, Statement.Allocate/Evict/Rollback) after a fixed boundary corpus; non-trivial = a direct case with at least one refusing gate, or a sequence with both an admitted and a refused job; distinct by full input"
+	out.Stats["rule"] = "queue forests of depth 1-3 (<= 7 queues; limits and deserved quotas from {-1, 0, k/4 GPUs, k*500 mCPU, k*500 MB}); jobs of 1-3 tasks (whole, fractional x devices, gpu-memory x devices, MIG, DRA, CPU-only; dyadic quantities so that float64 arithmetic is exact); 50% direct cases (capacity_policy.New on hand-set Allocated/AllocatedNotPreemptible near the caps, 1/5 of them malformed: unknown job queue, dangling parent, caps below -1, queue named \"\"), 50% sequences of 4-9 probe/admit/release decisions through a real session (proportion plugin's gates and handlers, one Statement per job: Allocate/Rollback, Evict) after a fixed boundary corpus; in 2/3 of the sequences (jobs then more often have 2-3 tasks) an admitted job is, with probability 2/3, committed right away through the real Statement.Commit against a cache whose Bind fails for one chosen task (first / middle / last task of the job, 3/4 of the commits) or for none (1/4), and the sequence goes on with further probe/admit/release steps on the same session (about 30% of all sequences contain a commit, 25% a bind failure, 13% admit another job after a bind failure; see the commit-bind-failure:* and sequences-* counts); after every step the plugin's per-queue Allocated and, independently, the set of pods whose status holds resources (Allocated/Pipelined/Binding/Bound/Running in the job's pod map) are observed; non-trivial = a direct case with at least one refusing gate, or a sequence with both an admitted and a refused job; distinct by full input"
 	return out.Flush()
 }
